@@ -186,15 +186,27 @@ def load_test_defs():
 
 
 def all_classes(W: VC.World) -> List[type]:
+    """every class with fields, and the classes **without** fields (signals: EXIT, KILL, ACKNOWLEDGE, …): they have no bytes
+    to round-trip, but header-plus-data JSON, the version check and copies concern them like any other class"""
     cls = list(W.load_core())
+    import pyrtma.core_defs as cd
+    mods = [cd]
     td = load_test_defs()
     if td is not None:
+        mods.append(td)
         for obj in vars(td).values():
             if isinstance(obj, type) and issubclass(obj, W.MessageBase) and obj.__module__ == td.__name__ \
                     and ctypes.sizeof(obj) > 0:
                 W.tid_for(obj)
                 cls.append(obj)
-    return cls + [W.M, W.N, W.O, W.structs[1]]
+    signals = []
+    for mod in mods:
+        for obj in vars(mod).values():
+            if isinstance(obj, type) and issubclass(obj, W.MessageBase) and obj.__module__ == mod.__name__ \
+                    and ctypes.sizeof(obj) == 0 and obj not in signals:
+                W.tid_for(obj)
+                signals.append(obj)
+    return cls + signals + [W.M, W.N, W.O, W.structs[1]]
 
 
 # ----------------------------------------------------------------------------------------------------------
@@ -330,6 +342,8 @@ def heap_script(W: VC.World, cls, m, rng, is_msg: bool) -> List[str]:
                     raise C.MachineryError("a nested struct is not where the field table says")
                 add(v)
                 lines.append(f"HOP V {k} {off} {sz} {tid(sc)}")
+        elif n == 0:
+            continue                                     # (an object without bytes: nothing to write into)
         elif r < 0.9 or not hdrs:
             ln = rng.randrange(1, min(n, 6) + 1)
             off = rng.randrange(0, n - ln + 1)
@@ -351,19 +365,31 @@ def heap_script(W: VC.World, cls, m, rng, is_msg: bool) -> List[str]:
     return lines
 
 
-def run_timecode_case(cid: str, cls, m) -> List[str]:
+def is_registered_message(cls, m) -> bool:
+    """a message class of the registry (header-plus-data JSON can be decoded back to it)"""
+    from pyrtma.message import _msg_defs
+    from pyrtma.message_data import MessageData
+    return isinstance(m, MessageData) and _msg_defs.get(getattr(cls, "type_id", None)) is cls
+
+
+def run_timecode_case(cid: str, cls, m, info: Dict[str, Any] = None) -> List[str]:
     """header-plus-data JSON and the dict round trip of the header when the header class is the time-code variant
     (a case of its own: the driver reports the first false clause of a case only)"""
     from pyrtma.message import Message, get_header_cls
     W = VC.world()
     _flag_force_on(W.V)
-    hc = get_header_cls(True)
-    h = hc()
-    h.msg_type, h.num_data_bytes, h.src_mod_id, h.dest_mod_id = cls.type_id, ctypes.sizeof(cls), 11, 7
-    h.msg_count, h.send_time, h.version = 3, 0.25, cls.type_hash
-    h.utc_seconds, h.utc_fraction = 1700000000, 123456
-    hb = bytes(h)
     lines = [f"SER {cid}", "B0 " + VC.hx(bytes(m))]
+    try:
+        hc = get_header_cls(True)
+        h = hc()
+        h.msg_type, h.num_data_bytes, h.src_mod_id, h.dest_mod_id = cls.type_id, ctypes.sizeof(cls), 11, 7
+        h.msg_count, h.send_time, h.version = 3, 0.25, cls.type_hash
+        h.utc_seconds, h.utc_fraction = 1700000000, 123456
+        hb = bytes(h)
+    except Exception as e:  # noqa: BLE001
+        if info is not None:
+            info["trouble"] = f"a time-code header for {cls.__name__} could not be built: {type(e).__name__}: {e}"[:300]
+        return lines + ["COPY 0", "END"]
 
     def whole(minify):
         r = Message.from_json(Message(h, m).to_json(minify=minify))
@@ -383,14 +409,27 @@ def run_timecode_case(cid: str, cls, m) -> List[str]:
     return lines
 
 
-def run_case(cid: str, cls, m) -> List[str]:
+def run_case(cid: str, cls, m, info: Dict[str, Any] = None, extended: bool = False) -> List[str]:
+    """`info["trouble"]`: the model-correspondence part of the block could not be produced because the code under test raised
+    where the unchanged code never does (`to_dict()` / `to_json()` of a message built through the field API); the round trips
+    (each one guarded on its own) are still observed and judged by the Spec.
+    `extended`: the version probes also on the indented text and on texts whose "data" member is missing / {} / null."""
     W = VC.world()
-    from pyrtma.message import Message, get_header_cls, _msg_defs
-    from pyrtma.message_data import MessageData
-    from pyrtma.exceptions import InvalidMessageDefinition
     _flag_force_on(W.V)
     b0 = bytes(m)
-    lines = [f"SER {cid}"]
+    try:
+        lines = [f"SER {cid}"] + _corr_part(W, cls, m)
+    except Exception as e:  # noqa: BLE001
+        if info is not None:
+            info["trouble"] = f"to_dict / to_json of a {cls.__name__} built through the field API raised {type(e).__name__}: {e}"[:300]
+        lines = [f"SER {cid}"]
+    return lines + _trips_part(W, cls, m, b0, info, extended)
+
+
+def _corr_part(W: VC.World, cls, m) -> List[str]:
+    from pyrtma.message import Message, get_header_cls, _msg_defs
+    from pyrtma.message_data import MessageData
+    lines: List[str] = []
     d = m.to_dict()
     lines.append("DESC " + " ".join(desc_tokens(W, cls)))
     lines.append("DICT " + " ".join(val_tokens(W, d)))
@@ -422,6 +461,14 @@ def run_case(cid: str, cls, m) -> List[str]:
         lines.append(f"FTOK {bits:016x} {tok}")
     for path, name, fty, off in leaves(W, cls):
         lines.append(f"LEAF {off} {VC.tok_fty(fty)} | {VC.tok_val(canon_val(W, dict_leaf(d, path, name)))}")
+    return lines
+
+
+def _trips_part(W: VC.World, cls, m, b0: bytes, info, extended: bool = False) -> List[str]:
+    from pyrtma.message import Message, get_header_cls, _msg_defs
+    from pyrtma.message_data import MessageData
+    from pyrtma.exceptions import InvalidMessageDefinition
+    lines: List[str] = []
     lines.append("B0 " + VC.hx(b0))
     bd = _trip(lambda: cls.from_dict(m.to_dict()))
     lines.append("BD " + ("err" if bd.startswith("err") else bd))
@@ -429,21 +476,27 @@ def run_case(cid: str, cls, m) -> List[str]:
     import random as _random
     import zlib as _zlib
     vr = _random.Random(_zlib.crc32(b0 + cls.__name__.encode()))
-    probes = [("self", m.to_dict())]
-    if len(b0) <= 2048:           # (big classes: the json.loads image is covered by the model's own fromJson on the text)
-        try:
-            probes.append(("json", json.loads(m.to_json(minify=True))))
-        except Exception:  # noqa: BLE001
-            pass
-    variants = dict_variants(W, cls, m.to_dict(), vr)
-    if len(b0) > 2048 and len(variants) > 2:
-        # the model stores array elements one by one like ctypes does (quadratic in the field size): big classes get two
-        # of the altered dictionaries per case, chosen at random, instead of all of them
-        variants = vr.sample(variants, 2)
-    probes += variants
-    for pname, v in probes:
-        toks = " ".join(val_tokens(W, v))
-        lines.append(f"FD {pname} " + _trip(lambda v=v: cls.from_dict(_copy.deepcopy(v))).split(":")[0] + " " + toks)
+    try:
+        probes = [("self", m.to_dict())]
+        if len(b0) <= 2048:           # (big classes: the json.loads image is covered by the model's own fromJson on the text)
+            try:
+                probes.append(("json", json.loads(m.to_json(minify=True))))
+            except Exception:  # noqa: BLE001
+                pass
+        variants = dict_variants(W, cls, m.to_dict(), vr)
+        if len(b0) > 2048 and len(variants) > 2:
+            # the model stores array elements one by one like ctypes does (quadratic in the field size): big classes get two
+            # of the altered dictionaries per case, chosen at random, instead of all of them
+            variants = vr.sample(variants, 2)
+        probes += variants
+        fd_lines = []
+        for pname, v in probes:
+            toks = " ".join(val_tokens(W, v))
+            fd_lines.append(f"FD {pname} " + _trip(lambda v=v: cls.from_dict(_copy.deepcopy(v))).split(":")[0] + " " + toks)
+        lines += fd_lines
+    except Exception as e:  # noqa: BLE001  (a `to_dict()` that raises or returns something that is no dictionary of the class)
+        if info is not None:
+            info.setdefault("trouble", f"the from_dict probes of a {cls.__name__} could not be built: {type(e).__name__}: {e}"[:300])
     lines.append("RT bytes " + _trip(lambda: cls.from_buffer_copy(bytes(m))))
     lines.append("RT dict " + bd)
     lines.append("RT json " + _trip(lambda: cls.from_json(m.to_json())))
@@ -461,6 +514,15 @@ def run_case(cid: str, cls, m) -> List[str]:
             h.send_time = 0.1
             h.version = version
             return h
+        try:
+            # (every later use builds its header the same way: if the validated API refuses these in-domain values, that is
+            # reported once, as a correspondence difference, and the header-plus-data trips are left out)
+            hdr(cls.type_hash), Message(hdr(0), m).to_json(minify=True)
+        except Exception as e:  # noqa: BLE001
+            is_msg = False
+            if info is not None:
+                info.setdefault("trouble", f"a header for {cls.__name__} could not be built / serialised: {type(e).__name__}: {e}"[:300])
+    if is_msg:
         for ver_name, ver in (("hash", cls.type_hash), ("zero", 0)):
             msg = Message(hdr(ver), m)
 
@@ -491,16 +553,49 @@ def run_case(cid: str, cls, m) -> List[str]:
                     raise AssertionError("copy shares the header")
                 return c.data
             lines.append(f"RT message_copy_whole_{'timecode' if tc else 'plain'} " + _trip(whole))
-        for ver in sorted({0, cls.type_hash, cls.type_hash ^ 1, 1, 0xFFFFFFFF, (cls.type_hash + 1) & 0xFFFFFFFF}):
-            txt = Message(hdr(ver), m).to_json(minify=True)
+        def outcome(txt: str) -> str:
+            """R: refused as the property demands; A: a Message came back; F: any other exception"""
             try:
                 Message.from_json(txt)
-                refused = 0
+                return "A"
             except InvalidMessageDefinition:
-                refused = 1
-            except Exception:  # noqa: BLE001  any other exception is neither a proper refusal nor a decode
-                refused = 0 if (ver != 0 and ver != cls.type_hash) else 1
+                return "R"
+            except Exception:  # noqa: BLE001
+                return "F"
+
+        def data_ok(doc) -> int:
+            """the data segment by itself: `d["data"]` is there and `from_dict` takes it"""
+            try:
+                cls.from_dict(doc["data"])
+                return 1
+            except Exception:  # noqa: BLE001
+                return 0
+
+        for ver in sorted({0, cls.type_hash, cls.type_hash ^ 1, 1, 0xFFFFFFFF, (cls.type_hash + 1) & 0xFFFFFFFF}):
+            mismatch = ver != 0 and ver != cls.type_hash
+            txt = Message(hdr(ver), m).to_json(minify=True)
+            oc = outcome(txt)
+            # any other exception is neither a proper refusal nor a decode
+            refused = 1 if oc == "R" else 0 if oc == "A" else (0 if mismatch else 1)
             lines.append(f"VER {ver} {cls.type_hash} {refused}")
+            if not extended:
+                continue
+            # the same question for the indented text and for texts whose "data" member is missing / {} / null: a foreign
+            # version is refused before the data segment is looked at, whatever the class (also one without fields)
+            texts = [("pretty", 0, Message(hdr(ver), m).to_json())]
+            base = json.loads(txt)
+            for what, edit in (("no_data", lambda d: d.pop("data")), ("data_empty", lambda d: d.__setitem__("data", {})),
+                               ("data_null", lambda d: d.__setitem__("data", None))):
+                doc = json.loads(txt)
+                edit(doc)
+                if doc == base:
+                    continue                   # (a class without fields: "data": {} is what to_json wrote)
+                texts.append(("min_" + what, 1, json.dumps(doc, separators=(",", ":"))))
+                texts.append(("pretty_" + what, 1, json.dumps(doc, indent=2)))
+            for what, altered, t in texts:
+                oc = outcome(t)
+                refused = 1 if oc == "R" else 0 if oc == "A" else (0 if mismatch else 1)
+                lines.append(f"VER {ver} {cls.type_hash} {refused} {what} {altered} {oc} {data_ok(json.loads(t))}")
     # copy shares no storage: flip every byte of the copy, then of the original
     shares = 0
     try:
@@ -526,6 +621,13 @@ def run_case(cid: str, cls, m) -> List[str]:
     except Exception as e:  # noqa: BLE001
         lines.append("RT copy err:" + type(e).__name__)
     lines.append(f"COPY {shares}")
-    lines += heap_script(W, cls, m, vr, is_msg)
+    try:
+        lines += heap_script(W, cls, m, vr, is_msg)
+    except C.MachineryError:
+        raise
+    except Exception as e:  # noqa: BLE001
+        ctypes.memmove(ctypes.addressof(m), b0, len(b0))
+        if info is not None:
+            info.setdefault("trouble", f"the storage script on a {cls.__name__} raised {type(e).__name__}: {e}"[:300])
     lines.append("END")
     return lines
